@@ -130,3 +130,63 @@ def _repr(self):
 
 for _c in (SrcAnn, SrcSlots, SrcSlotsPriv, SrcVars, SrcSig, SrcSlotsDict):
     _c.__repr__ = _repr
+
+
+# ---- round 3: scalar kinds for the equal-value families (distinct objects that compare and hash equal) ------------
+import datetime as _dt  # noqa: E402
+
+
+class IE(enum.IntEnum):         # IE.ONE == 1 == 1.0 == True, same hash
+    ZERO = 0
+    ONE = 1
+    K = 1000
+
+
+class IF(enum.IntFlag):
+    A = 1
+    B = 2
+
+
+class SE(str, enum.Enum):       # SE.ONE == "1", same hash (a str subclass instance under str)
+    ONE = "1"
+    A = "abc"
+    NUM = "1.5"
+    DT = "2020-01-01T12:00:00+00:00"
+
+    def __str__(self):          # what enum.StrEnum does
+        return str.__str__(self)
+
+
+class MyDT(_dt.datetime):       # subclass instances under the base type
+    pass
+
+
+class MyDate(_dt.date):
+    pass
+
+
+class MyTime(_dt.time):
+    pass
+
+
+class MyTD(_dt.timedelta):
+    pass
+
+
+for _c in (IE, IF, SE, MyDT, MyDate, MyTime, MyTD):
+    CLASSES[_c.__name__] = _c
+
+_FIELD_CLASSES: dict = {}
+
+
+def field_class(key: str, T):
+    """a frozen dataclass `F(v: T)` (instances with ==-equal fields are == and hash equal), one per declared type"""
+    if key not in _FIELD_CLASSES:
+        import hashlib
+        name = "F_" + hashlib.md5(key.encode()).hexdigest()[:8]      # the same name in every process
+        cls = dataclasses.make_dataclass(name, [("v", T)], frozen=True)
+        cls.__module__ = __name__
+        cls.__qualname__ = cls.__name__
+        globals()[cls.__name__] = cls
+        _FIELD_CLASSES[key] = cls
+    return _FIELD_CLASSES[key]
